@@ -75,7 +75,7 @@ def blocked_matrix(outers, peers_of, types, caps, full):
         if full:
             for sv in svs:
                 for peer in peers:
-                    if peer == "NOP" and outer in ("SEND", "RECV"):
+                    if peer in ("NOP", "OBSERVE") and outer in ("SEND", "RECV"):
                         continue
                     if sv[2] != 0 and peer in ("RECV_TO", "SEND_TO", "SEND_OPT_TO"):
                         continue
@@ -87,7 +87,7 @@ def blocked_matrix(outers, peers_of, types, caps, full):
             for i in range(n):
                 sv = svs[i % len(svs)]
                 peer = peers[(i + k) % len(peers)]
-                if peer == "NOP" and outer in ("SEND", "RECV"):
+                if peer in ("NOP", "OBSERVE") and outer in ("SEND", "RECV"):
                     peer = peers[0]
                 if sv[2] != 0 and peer in ("RECV_TO", "SEND_TO", "SEND_OPT_TO"):
                     peer = peers[0]
@@ -132,9 +132,9 @@ def repoll_done(T, send_side):
 ABW_SITES = ["ABW_ENTRY", "ABW_SPIN", "ABW_SLEEP"]
 
 
-def future_drop(T, cap, send_side, stage, site="ABW_ENTRY", fin=0):
-    name = "d_%s_c%d_%s_st%d_%s_f%d" % (tname(T), cap, "sf" if send_side else "rf", stage, site, fin)
-    body = "future_drop::<%s>(%d, %s, %d, SITE_%s, %d);" % (T, cap, "true" if send_side else "false", stage, site, fin)
+def future_drop(T, cap, send_side, stage, site="ABW_ENTRY", fin=0, nth=0):
+    name = "d_%s_c%d_%s_st%d_%s_f%d_n%d" % (tname(T), cap, "sf" if send_side else "rf", stage, site, fin, nth)
+    body = "future_drop::<%s>(%d, %s, %d, SITE_%s, %d, %d);" % (T, cap, "true" if send_side else "false", stage, site, fin, nth)
     return Inst(name.lower(), body, unwind=8,
                 note="%s future dropped at life stage %d (0 never polled,1 pending,2 claimed by split-phase peer finishing at %s with %s,3 completed unobserved,4 completed)" % (
                     "send" if send_side else "receive", stage, site, "terminate" if fin else "hand-off"))
@@ -148,10 +148,10 @@ def drop_matrix(types, caps, full):
                 for cap in (caps if full else [caps[k % len(caps)]]):
                     out.append(future_drop(T, cap, send_side, stage))
             k += 1
-        for site in ABW_SITES:
+        for (site, nth) in [(x, 0) for x in ABW_SITES] + [("ABW_SLEEP", 1)]:
             for fin in (0, 1):
                 for T in (types if full else [types[k % len(types)]]):
-                    out.append(future_drop(T, 0, send_side, 2, site, fin))
+                    out.append(future_drop(T, 0, send_side, 2, site, fin, nth))
                 k += 1
     return out
 
@@ -175,6 +175,8 @@ def split_matrix(types, full, outers=("SEND", "RECV", "SEND_TO", "SEND_OPT_TO", 
                                                        "WAIT_SPIN", "WAIT_PRECAS", "PARK")]
             combos += [("WT_LOOP", "TIMED_PRECANCEL", 3, 0), ("WT_EXIT", "PARK", 3, 0), ("TIMED_EXPIRED", "WAIT_PRECAS", 3, 0)]
         for (s1, s2, clock, sp) in combos:
+            if outer == "RECV_TO" and clock == 3:
+                clock = 4  # recv_timeout reads the clock once more before registering (early `now > deadline` test)
             for fin in (0, 1):
                 for T in (types if full else [types[k % len(types)]]):
                     out.append(split(T, outer, s1, s2, fin, clock, sp))
@@ -190,6 +192,12 @@ def _atoms():
               "TRY_RECV", "TRY_RECV_RT", "RECV", "RECV_TIMEOUT", "DRAIN", "DROP_S", "DROP_R", "CLOSE_S", "CLOSE_R",
               "CONVERT_S", "CONVERT_R", "STREAM_DROP"):
         A.append((k.lower(), "A_" + k, 0, 0, 0))
+    A.append(("asend_start2", "A_ASEND_START", 2, 0, 0))
+    A.append(("asend_drop2", "A_ASEND_DROP", 2, 0, 0))
+    A.append(("asend_poll2w0", "A_ASEND_POLL", 2, 0, 0))
+    A.append(("arecv_start2", "A_ARECV_START", 2, 0, 0))
+    A.append(("arecv_drop2", "A_ARECV_DROP", 2, 0, 0))
+    A.append(("arecv_poll2w0", "A_ARECV_POLL", 2, 0, 0))
     for f, w in ((0, 0), (1, 1)):
         A.append(("asend_start%d" % f, "A_ASEND_START", f, w, 0))
         A.append(("arecv_start%d" % f, "A_ARECV_START", f, w, 0))
@@ -214,7 +222,7 @@ ATOM = {a[0]: a for a in ATOMS}
 def _legal(seq):
     """cheap syntactic legality (handles / futures exist); semantic preconditions are assumed in the harness"""
     ls, lr = 1, 1
-    sf, rf, st = [False, False], [False, False], False
+    sf, rf, st = [False, False, False], [False, False, False], False
     for (lab, k, f, w, d) in seq:
         if k in ("A_TRY_SEND", "A_TRY_SEND_OPT", "A_TRY_SEND_RT", "A_TRY_SEND_OPT_RT", "A_SEND", "A_SEND_TIMEOUT",
                  "A_SEND_OPT_TIMEOUT", "A_CLOSE_S"):
@@ -287,7 +295,7 @@ def seqc(T, cap, labels):
     name = "q_%s_c%s_%s" % (tname(T), capn, "__".join(labels))
     ops = ", ".join("(%s, %d, %d, %d)" % (k, f, w, d) for (_, k, f, w, d) in seq)
     body = "seqc::<%s>(%s, &[%s]);" % (T, "None" if cap is None else "Some(%d)" % cap, ops)
-    i = Inst(name.lower(), body, unwind=max(9, len(seq) + 3),
+    i = Inst(name.lower(), body, unwind=max(14, len(seq) + 3),
              note="call sequence [%s] on capacity %s (%s): every result and the abstraction of the real state compared with the reference model" % (
                  ", ".join(labels), capn, T))
     i.vacuous_ok = True
@@ -336,6 +344,26 @@ CURATED = [
     ["try_send", "try_send", "stream_start", "stream_pollw0", "stream_pollw0", "close_s", "stream_pollw0", "stream_pollw1"],
     ["stream_start", "stream_pollw1", "stream_drop", "try_send", "try_recv"],
     ["asend_start0", "stream_start", "asend_poll0w0", "stream_pollw0", "asend_start1", "stream_pollw0", "asend_poll1w1"],
+    # 25.. : three waiters, cancellation from the head / middle of the waiting list
+    ["asend_start0", "asend_start1", "asend_start2", "asend_drop0", "try_recv", "try_recv", "asend_poll1w1", "asend_poll2w0"],
+    ["asend_start0", "asend_start1", "asend_start2", "asend_drop1", "drain", "asend_poll0w0", "asend_poll2w0"],
+    ["try_send", "asend_start0", "asend_start1", "asend_start2", "asend_drop0", "try_recv", "try_recv", "try_recv", "asend_poll2w0"],
+    ["arecv_start0", "arecv_start1", "arecv_start2", "arecv_drop0", "try_send", "try_send", "arecv_poll1w1", "arecv_poll2w0"],
+    ["arecv_start0", "arecv_start1", "arecv_start2", "arecv_drop1", "try_send", "send", "arecv_poll0w0", "arecv_poll2w0"],
+    # 30.. : a timed-out operation behind / in front of other waiters removes exactly itself
+    ["arecv_start0", "arecv_start1", "recv_timeout", "try_send", "arecv_poll0w0", "arecv_poll1w1", "try_send", "arecv_poll1w1"],
+    ["arecv_start0", "recv_timeout", "try_send", "arecv_poll0w0", "try_send"],
+    ["asend_start0", "asend_start1", "send_timeout", "try_recv", "try_recv", "asend_poll0w0", "asend_poll1w1", "try_recv"],
+    ["asend_start0", "send_opt_timeout", "try_recv", "asend_poll0w0", "try_recv"],
+    # 34.. : async receive from a full buffer hands the freed place to the oldest blocked sender
+    ["try_send", "asend_start0", "arecv_start0", "asend_poll0w0", "try_recv", "try_recv"],
+    ["try_send", "asend_start0", "stream_start", "asend_poll0w0", "stream_pollw0", "stream_pollw0"],
+    ["try_send", "try_send", "asend_start0", "asend_start1", "arecv_start0", "arecv_start1", "asend_poll0w0", "asend_poll1w1", "drain"],
+    # 37.. : a pending operation is terminated and then dropped without another poll
+    ["asend_start0", "close_r", "asend_drop0", "try_recv"],
+    ["try_send", "asend_start0", "drop_r", "asend_drop0"],
+    ["arecv_start0", "close_s", "arecv_drop0", "try_send"],
+    ["asend_start0", "asend_start1", "close_s", "asend_drop1", "asend_poll0w0"],
 ]
 
 
@@ -401,9 +429,9 @@ def poll_sites(types, full):
     return out
 
 
-def poll_split(T, send_side, diff, site, fin):
-    return simple("pp_%s_%s_%s_%s_f%d" % (tname(T), "sf" if send_side else "rf", "diffw" if diff else "samew", site, fin),
-                  "poll_split::<%s>(%s, %s, SITE_%s, %d);" % (T, "true" if send_side else "false", "true" if diff else "false", site, fin),
+def poll_split(T, send_side, diff, site, fin, nth=0):
+    return simple("pp_%s_%s_%s_%s_f%d_n%d" % (tname(T), "sf" if send_side else "rf", "diffw" if diff else "samew", site, fin, nth),
+                  "poll_split::<%s>(%s, %s, SITE_%s, %d, %d);" % (T, "true" if send_side else "false", "true" if diff else "false", site, fin, nth),
                   "split-phase peer has claimed the pending %s future; re-poll with %s waker; peer %s at %s" % (
                       "send" if send_side else "receive", "another" if diff else "the same", "terminates" if fin else "hands off", site))
 
@@ -418,6 +446,7 @@ def poll_splits(types, full):
                 for T in (types if full else [types[k % len(types)]]):
                     out.append(poll_split(T, send_side, True, site, fin))
                 k += 1
+            out.append(poll_split(types[k % len(types)], send_side, True, "ABW_SLEEP", fin, 1))
     return out
 
 
@@ -481,8 +510,21 @@ def life_atoms():
 
 CUR = {  # curated sequences by theme (indices into CURATED)
     "basic": [0, 1, 2, 3], "fifo": [4, 5, 6, 7, 8], "recvq": [8, 9, 10, 11], "close": [12, 13], "disc": [14, 15, 16, 17],
-    "handles": [18, 19, 20], "stream": [21, 22, 23, 24],
+    "handles": [18, 19, 20], "stream": [21, 22, 23, 24], "three": [25, 26, 27, 28, 29], "timedq": [30, 31, 32, 33],
+    "refill": [34, 35, 36], "termdrop": [37, 38, 39, 40],
 }
+
+
+def clone_after():
+    """every clone flavour after close / after the last handle of the other side went away"""
+    out = []
+    for d in range(4):
+        for first in ("close_s", "close_r"):
+            out.append([first, "clone_s%d" % d, "try_send", "close_s"])
+            out.append([first, "clone_r%d" % d, "try_recv", "close_r"])
+        out.append(["try_send", "drop_s", "clone_r%d" % d, "drop_r", "try_recv", "try_recv"])
+        out.append(["drop_r", "clone_s%d" % d, "drop_s", "try_send"])
+    return out
 
 
 def cur(*themes):
@@ -505,17 +547,21 @@ def instances(prop, tier):
         L += B(RECV_OUTERS, SEND_PEERS, DROPPY, [0, 1])
         L += async_matrix(DROPPY, [0, 1], full)
         L += split_matrix(DROPPY, full)
-        L += seqs(cur("basic", "fifo", "recvq"), DROPPY, [0, 1] if not full else [0, 1, 2, None])
+        L += seqs(cur("basic", "fifo", "recvq", "three", "refill", "timedq"), DROPPY, [0, 1] if not full else [0, 1, 2, None])
+        CL = [i for i in drop_matrix(DROPPY, [0], full) if "_st2_" in i.name] + [i for i in poll_splits(DROPPY, full) if "diffw" in i.name]
         if not full:
-            L = pick(L, 34)
+            L = pick(L, 30) + pick(CL, 8, 3) + [i for i in CL if i.name.endswith("_n1")][:3]
+        else:
+            L += CL
     elif prop == "C02":
+        L += seqs(cur("three", "timedq", "refill"), DROPPY, [0, 1])
         L += seqs(cur("fifo", "recvq", "basic"), DROPPY, [0, 1, 2] if full else [1])
         L += seqs(cur("fifo"), DROPPY, [0, 2])
         L += drain_states(DROPPY, full)
         L += B(["SEND", "SEND_TO"], RECV_PEERS, DROPPY, [1])
         L += [future_drop(T, c, ss, 1) for T in DROPPY for c in (0, 1) for ss in (True, False)]
         if not full:
-            L = pick(L, 32)
+            L = seqs(cur("three", "timedq"), DROPPY, [0]) + pick(L, 26)
     elif prop == "C03":
         L += B(SEND_OUTERS, RECV_PEERS + KILL_FOR_SENDER + ["OBSERVE"], MIXED, [0, 1])
         L += B(RECV_OUTERS, SEND_PEERS + KILL_FOR_RECEIVER + ["OBSERVE"], MIXED, [0, 1])
@@ -542,16 +588,19 @@ def instances(prop, tier):
         L += seqs([["try_send", "try_send_opt", "try_send_rt", "try_send_opt_rt", "close_s"],
                    ["try_send_opt", "drop_r", "try_send_opt", "try_send", "send_opt_timeout"],
                    ["close_r", "try_send_opt_rt", "send_timeout", "send_opt_timeout", "asend_start0"]], DROPPY, [0, 1, 2])
+        L += seqs(cur("termdrop", "timedq"), DROPPY, [0, 1])
         if not full:
-            L = pick(L, 36)
+            L = pick(L, 38)
     elif prop == "C06":
         L += B(["SEND", "RECV"], RECV_PEERS + KILL_FOR_SENDER, DROPPY, [0, 1])
         L += B(["RECV"], SEND_PEERS + KILL_FOR_RECEIVER, DROPPY, [0, 1])
         L += B(["SEND"], RECV_PEERS + KILL_FOR_SENDER, DROPPY, [0, 1])
         L += async_matrix(DROPPY, [0, 1], full)
         L += split_matrix(DROPPY, full, outers=("SEND", "RECV"))
+        L += B(["SEND", "SEND_TO"], ["ARECV", "RECV", "TRY_RECV", "DRAIN"], DROPPY, [1])
+        L += seqs(cur("refill"), DROPPY, [1, 2])
         if not full:
-            L = pick(L, 34)
+            L = pick(L, 36)
     elif prop == "C07":
         L += split_matrix(MIXED, full)
         D = drop_matrix(MIXED, [0], full)
@@ -565,11 +614,15 @@ def instances(prop, tier):
                    ["try_send_opt", "try_send_rt", "send_timeout", "drain", "send"],
                    ["asend_start0", "try_send", "try_recv", "asend_poll0w0", "try_send_opt_rt"],
                    ["arecv_start0", "try_send", "try_send", "try_send", "arecv_poll0w0"]], DROPPY, [0, 1, 2, None])
+        ZS = seqs([["try_send", "try_send", "try_send", "try_recv", "try_send"], ["try_send_opt", "try_send_rt", "try_send_opt_rt", "drain"],
+                   ["try_send", "send_timeout", "asend_start0", "try_recv", "asend_poll0w0"]], ZST, [0, 1, 2])
         L += B(SEND_OUTERS, RECV_PEERS, DROPPY, [0, 1])
         A = async_matrix(DROPPY, [0, 1], full)
         L += [i for i in A if "_sf_" in i.name]
         if not full:
-            L = pick(L, 30)
+            L = pick(L, 26) + ZS[::2]
+        else:
+            L += ZS
     elif prop == "C09":
         L += B(["SEND", "SEND_TO"], ["ARECV"], MIXED, [0, 1])
         L += B(["RECV", "RECV_TO"], ["ASEND"], MIXED, [0, 1])
@@ -590,8 +643,12 @@ def instances(prop, tier):
         L += seqs(cur("close") + [["close_s", "close_r", "try_send", "try_recv", "send_timeout", "recv_timeout", "drain"],
                                   ["try_send", "try_send", "close_r", "close_s", "asend_start0", "arecv_start0", "stream_start"],
                                   ["clone_s0", "close_s", "drop_s", "clone_r1", "try_send_opt", "try_recv_rt"]], DROPPY, [0, 1, 2])
+        L += seqs(cur("termdrop"), DROPPY, [0, 1])
+        CA = seqs([c for c in clone_after() if c[0].startswith("close")], DROPPY, [1])
         if not full:
-            L = pick(L, 32)
+            L = pick(L, 24) + CA
+        else:
+            L += CA
     elif prop == "C11":
         L += B(SEND_OUTERS, ["DROP_R"], DROPPY, [0, 1])
         L += B(RECV_OUTERS, ["DROP_S"], DROPPY, [0, 1])
@@ -601,8 +658,11 @@ def instances(prop, tier):
                                  ["clone_s0", "drop_s", "try_recv", "drop_s", "try_recv", "recv_timeout"],
                                  ["clone_r0", "drop_r", "try_send", "drop_r", "try_send", "send_timeout", "try_send_opt"],
                                  ["try_send", "drop_s", "stream_start", "stream_pollw0", "stream_pollw0"]], DROPPY, [0, 1, 2])
+        CA = seqs([c for c in clone_after() if not c[0].startswith("close")], DROPPY, [2])
         if not full:
-            L = pick(L, 32)
+            L = pick(L, 26) + CA
+        else:
+            L += CA
     elif prop == "C12":
         la = life_atoms()
         L += seqs([[a] for a in la], DROPPY, [1])
@@ -612,14 +672,18 @@ def instances(prop, tier):
         L += seqs(three if full else pick(three, 8), DROPPY, [0])
         L += seqs(cur("handles"), DROPPY, [1])
         L += seqs([["clone_s1", "asend_start0", "clone_r2", "drop_r", "drop_s", "asend_poll0w0", "close_r", "clone_s0"]], DROPPY, [0])
+        L += seqs(clone_after(), DROPPY, [1])
     elif prop == "C13":
         timed = ["SEND_TO", "SEND_OPT_TO", "RECV_TO"]
         L += [timed_alone(T, c, o) for T in DROPPY for c in (0, 1) for o in timed]
         L += B(["SEND_TO", "SEND_OPT_TO"], RECV_PEERS + KILL_FOR_SENDER, DROPPY, [0, 1])
         L += B(["RECV_TO"], SEND_PEERS + KILL_FOR_RECEIVER, DROPPY, [0, 1])
         L += split_matrix(DROPPY, full, outers=("SEND_TO", "SEND_OPT_TO", "RECV_TO"))
+        TQ = seqs(cur("timedq"), DROPPY, [0, 1])
         if not full:
-            L = pick(L, 36)
+            L = pick(L, 32) + TQ
+        else:
+            L += TQ
     elif prop == "C14":
         L += rt_lockeds(DROPPY, full)
         L += seqs([["try_send", "try_send", "try_send_opt", "try_send_rt", "try_send_opt_rt"],
@@ -634,12 +698,13 @@ def instances(prop, tier):
             L = pick(L, 32)
     elif prop == "C15":
         L += drop_matrix(DROPPY, [0, 1], full)
-        L += [future_drop(T, 0, ss, 2, site, fin) for T in ("u32", "Big", "()") for ss in (True, False)
-              for site, fin in (("ABW_ENTRY", 0), ("ABW_SLEEP", 1))]
+        L += [future_drop(T, 0, ss, 2, site, fin, nth) for T in ("u32", "Big", "u8") for ss in (True, False)
+              for site, fin, nth in (("ABW_ENTRY", 0, 0), ("ABW_SLEEP", 1, 1))]
         L += seqs([["asend_start0", "asend_drop0", "try_recv"], ["arecv_start0", "arecv_drop0", "try_send", "try_recv"],
                    ["asend_start0", "asend_start1", "asend_drop1", "drain", "asend_poll0w0"]], DROPPY, [0, 1])
+        L += seqs(cur("termdrop", "three"), DROPPY, [0, 1])
         if not full:
-            L = pick(L, 34)
+            L = pick(L, 38)
     elif prop == "C16":
         L += [repoll_done("TagL", True), repoll_done("TagP", False)]
         L += [async_waiter(T, c, ss, p, rp) for (T, c, ss, p, rp) in [
@@ -665,6 +730,7 @@ def instances(prop, tier):
             for s_ in CURATED:
                 L.append(seqc(MIXED[k % len(MIXED)], [1, 0, 2][k % 3], s_))
                 k += 1
+            L += seqs(clone_after()[::3], MIXED, [1])
     elif prop == "C19":
         L += drain_states(DROPPY, full)
         L += B(["SEND", "SEND_TO", "SEND_OPT_TO"], ["DRAIN"], DROPPY, [0, 1])
